@@ -643,7 +643,7 @@ def _vortex_mesh(rng, nx, ny, sym):
                 outputs=[s["name"] + "_vortex_mesh"], branch="ground" if ground else "free", jtol=1e-6)
 
 
-@spec("EvalVelMtx", jac=False)
+@spec("EvalVelMtx")
 def _eval_vel_mtx(rng, nx, ny, sym):
     from openaerostruct.aerodynamics.eval_mtx import EvalVelMtx
     ground = bool(sym and rng.uniform() < 0.4)
@@ -755,7 +755,7 @@ def _mphys_ok():
         return False
 
 
-@spec("Demux", op="Mux", sym_opts=(False,), jac=False)
+@spec("Demux", op="Mux", sym_opts=(False,))
 def _demux(rng, nx, ny, sym):
     from openaerostruct.mphys.demux_surface_mesh import DemuxSurfaceMesh
     from mphys.core import MPhysVariables
@@ -767,7 +767,7 @@ def _demux(rng, nx, ny, sym):
                 outputs=[s["name"] + "_def_mesh" for s in ss])
 
 
-@spec("MuxForces", op="Mux", sym_opts=(False,), jac=False)
+@spec("MuxForces", op="Mux", sym_opts=(False,))
 def _mux(rng, nx, ny, sym):
     from openaerostruct.mphys.mux_surface_forces import MuxSurfaceForces
     from mphys.core import MPhysVariables
@@ -852,14 +852,16 @@ def _real_kloc(rng, s, ny):
     return np.array(p.get_val("local_stiff_transformed")), sec
 
 
-@spec("FEMSolve", jac=False)
+@spec("FEMSolve")
 def _fem_solve(rng, nx, ny, sym):
     from openaerostruct.structures.fem import FEM
     s = _surf(rng, nx, ny, sym)
     kloc, sec = _real_kloc(rng, s, ny)
     forces = np.concatenate([rng.normal(size=6 * ny) * 1e3, np.zeros(6)])
     return dict(factory=lambda: FEM(surface=s), ints=[ny, int(sym)], consts=[],
-                inputs=OrderedDict(local_stiff_transformed=kloc, forces=forces), outputs=["disp_aug"], vtol=1e-6, vatol=1e-12)
+                inputs=OrderedDict(local_stiff_transformed=kloc, forces=forces), outputs=["disp_aug"], vtol=1e-6, vatol=1e-12,
+                jtol=1e-5, jac=bool(ny <= 4))     # totals through the implicit solve (linearize + solve_linear) vs the derivative of the
+                                                  # model solve; one Gaussian elimination per input entry, hence small beams only
 
 
 @spec("ConvertVelocity", sym_opts=(False,))
@@ -990,7 +992,11 @@ def _multi_cd(rng, nx, ny, sym):
     return dict(factory=lambda: MultiCD(n_points=n), ints=[n], consts=[], inputs=inp, outputs=["CD"])
 
 
-def _glue_surfs(rng, nx, ny, sym, ns=None):
+def _glue_surfs(rng, nx, ny, sym, ns=None, cap=False):
+    if cap:
+        # the dense Jacobians of these components have O(N^2) columns and rows: the panel counts are kept small (the bookkeeping over
+        # 1-3 surfaces of different sizes is what matters)
+        nx, ny = min(nx, 3), min(ny, 4)
     ss = _vlm_surfs(rng, nx, ny, sym, ns=ns if ns is not None else int(rng.integers(1, 4)))
     ints = [len(ss)]
     for s in ss:
@@ -1011,7 +1017,7 @@ def _panel_forces_surf(rng, nx, ny, sym):
 @spec("EvalVelocities")
 def _eval_velocities(rng, nx, ny, sym):
     from openaerostruct.aerodynamics.eval_velocities import EvalVelocities
-    ss, ints, nums = _glue_surfs(rng, nx, ny, sym)
+    ss, ints, nums = _glue_surfs(rng, nx, ny, sym, cap=True)
     N = sum(nums)
     # the component is instantiated with num_eval_points = system size (force points), as in VLMStates
     inp = OrderedDict(freestream_velocities=rng.normal(size=(N, 3)) * 30, circulations=rng.normal(size=N) * 5)
@@ -1025,7 +1031,7 @@ def _eval_velocities(rng, nx, ny, sym):
 @spec("MtxRhs")
 def _mtx_rhs(rng, nx, ny, sym):
     from openaerostruct.aerodynamics.mtx_rhs import VLMMtxRHSComp
-    ss, ints, nums = _glue_surfs(rng, nx, ny, sym)
+    ss, ints, nums = _glue_surfs(rng, nx, ny, sym, cap=True)
     N = sum(nums)
     inp = OrderedDict(freestream_velocities=rng.normal(size=(N, 3)) * 30)
     for s, num in zip(ss, nums):
